@@ -16,7 +16,7 @@ var mkC15 = func() []*sim.Mon { return []*sim.Mon{sim.MonC15()} }
 
 func init() {
 	replayers["C15"] = append(replayers["C15"], func(vals []int, keepLog bool) *sim.World {
-		return RunSoloScript(&ReplaySrc{Vals: vals}, mkC15(), keepLog, SoloShape{ClockSteps: true}).S.W
+		return RunSoloScript(&ReplaySrc{Vals: vals}, mkC15(), keepLog, SoloShape{ClockSteps: true, HugePools: true}).S.W
 	})
 	replayers["C14"] = append(replayers["C14"], func(vals []int, keepLog bool) *sim.World {
 		w, _ := runC14(vals, keepLog)
@@ -28,13 +28,13 @@ func TestC15(t *testing.T) {
 	runProp(t, "C15", func(e *Env) func(*rapid.T) {
 		return func(t *rapid.T) {
 			src := &RapidSrc{T: t}
-			out := RunSoloScript(src, mkC15(), false, SoloShape{ClockSteps: true})
+			out := RunSoloScript(src, mkC15(), false, SoloShape{ClockSteps: true, HugePools: true})
 			w := out.S.W
 			for k, v := range out.Classes {
 				w.Stats[k] += v
 			}
 			fatal := e.Report(w, src.Rec, func() string {
-				return RunSoloScript(&ReplaySrc{Vals: src.Rec}, mkC15(), true, SoloShape{ClockSteps: true}).S.W.Render()
+				return RunSoloScript(&ReplaySrc{Vals: src.Rec}, mkC15(), true, SoloShape{ClockSteps: true, HugePools: true}).S.W.Render()
 			})
 			e.Case(FPInts(src.Rec), w.Stats["c15_nontrivial"] > 0, w.Stats, func() any { return sampleOf(w, src.Rec) })
 			if fatal != "" {
